@@ -36,17 +36,32 @@ def finish_key(facts):
     return ks[0]
 
 
+def variants_on_path(atoms):
+    """the variants of `self` a path is a path of: the intersection of all its tests of `self` (the type may be looked at
+    more than once: `requires_namespace(self)`, then `match name_rule(self)`); [] if `self` is never tested, None if the
+    tests contradict each other (an infeasible combination of branches)"""
+    cur = None
+    for a in atoms:
+        if a[0] == "is" and a[1] in ("arg1", "*arg1"):
+            s_ = {a[2]}
+        elif a[0] == "isin" and a[1] in ("arg1", "*arg1"):
+            s_ = set(a[2])
+        else:
+            continue
+        cur = s_ if cur is None else (cur & s_)
+    if cur is None:
+        return []
+    if not cur:
+        return None
+    return sorted(cur)
+
+
 def helper_roles(facts, fk):
     """nuget and pypi helpers by role: callees receiving &mut parts.name in the NuGet / PyPI arm."""
     r = {}
     for o in paths.outcomes(facts, fk):
-        vs = []
-        for a in o["atoms"]:
-            if a[0] == "is" and a[1] in ("arg1", "*arg1"):
-                vs = [a[2]]
-            elif a[0] == "isin" and a[1] in ("arg1", "*arg1"):
-                vs = list(a[2])
-        for v in vs:
+        vs = variants_on_path(o["atoms"])
+        for v in vs or []:
             for e in o["effects"]:
                 if e[0] == "call" and e[2] == ("arg", 2, "name") and e[1] in facts.bodies:
                     r[v] = e[1]
@@ -62,15 +77,10 @@ def rule_shape_table(ctx):
     helpers = helper_roles(facts, fk)
     rows = {}
     for o in paths.outcomes(facts, fk):
-        vs = []
-        conds = []
-        for a in o["atoms"]:
-            if a[0] == "is" and a[1] in ("arg1", "*arg1"):
-                vs = [a[2]]
-            elif a[0] == "isin" and a[1] in ("arg1", "*arg1"):
-                vs = list(a[2])
-            else:
-                conds.append(a)
+        vs = variants_on_path(o["atoms"])
+        if vs is None:
+            continue      # the tests of `self` on this path contradict each other: not a path of any variant
+        conds = [a for a in o["atoms"] if not (a[0] in ("is", "isin") and a[1] in ("arg1", "*arg1"))]
         # effects on a local temporary (an iterator being advanced) are not effects of the hook: only what is reachable
         # from its arguments counts
         effs = [(e[1], e[2]) for e in o["effects"] if e[0] == "call" and e[2][0] == "arg"] + [("store", nshow(e[1])) for e in o["effects"] if e[0] != "call"]
